@@ -283,9 +283,10 @@ def build(u):
     H = "mod hashable_value"
     r_peq = make_r_sub("R-eq", r"\bl == r\b", "vpeq(l, r)")
     u.emit("impl Value {\n")
-    u.fn(F, "impl PartialEq for Value", "eq", ret="r", props=P18, key="PartialEq for Value::eq", vpath="Value::eq",
+    # Option<T>::try_from decides `absent` with Value's ==: under hashable-value that is this eq, so C12 rests on it too
+    u.fn(F, "impl PartialEq for Value", "eq", ret="r", props=P18 + P12, key="PartialEq for Value::eq", vpath="Value::eq",
          rules=[r_path, r_peq, make_r_sub("R-eq", r"ty_l == ty_r && values_l == values_r", "vpeq(ty_l, ty_r) && vpeq(values_l, values_r)")],
-         spec=[("ensures\n    // equal iff same variant and equal payloads (eqv is generated from the enum: a variant without an arm here fails)\n    r == eqv(*self, *other),", P18)])
+         spec=[("ensures\n    // equal iff same variant and equal payloads (eqv is generated from the enum: a variant without an arm here fails)\n    r == eqv(*self, *other),", P18 + P12)])
     u.fn(F, "impl Hash for Value", "hash", props=P18 + ["MODEL"], key="Hash for Value::hash", vpath="Value::hash",
          rules=[r_path, make_r_sub("R-generic", r"fn hash<H: std::hash::Hasher>\(&self, state: &mut H\)", "fn hash(&self, state: &mut VHasher)"),
                 make_r_sub("R-hash", r"mem::discriminant\(self\)\.hash\(state\)", "vhash_disc(self, state)"),
@@ -293,14 +294,14 @@ def build(u):
          spec=[("ensures final(state).tr@ =~= old(state).tr@ + hash_events(*self),", ["MODEL"])])
     u.emit("}\n")
     for w, ft in (("32", "f32"), ("64", "f64")):
-        u.fn(F, H, "cmp_f" + w, ret="r_", props=P18, key="hashable_value::cmp_f" + w, vpath="cmp_f" + w,
+        u.fn(F, H, "cmp_f" + w, ret="r_", props=P18 + P12, key="hashable_value::cmp_f" + w, vpath="cmp_f" + w,
              rules=[make_r_sub("R-eq", r"OrderedFloat\(\*l\)\.eq\(&OrderedFloat\(\*r\)\)", "vof_eq(*l, *r)")],
              spec="ensures r_ == (match (*l, *r) { (Some(a), Some(b)) => ofeq(a, b), (None, None) => true, _ => false }),")
         u.fn(F, H, "hash_f" + w, props=P18 + ["MODEL"], key="hashable_value::hash_f" + w, vpath="hash_f" + w,
              rules=[make_r_sub("R-generic", r"fn hash_f%s<H: Hasher>\(v: &Option<%s>, state: &mut H\)" % (w, ft), "fn hash_f%s(v: &Option<%s>, state: &mut VHasher)" % (w, ft)),
                     make_r_sub("R-hash", r"OrderedFloat\(\*v\)\.hash\(state\)", "vof_hash(*v, state)"), make_r_sub("R-hash", r'"null"\.hash\(state\)', 'vhash_str("null", state)')],
              spec=[("ensures final(state).tr@ =~= old(state).tr@ + (match *v { Some(f) => seq![HEv::OKey(ofkey(f))], None => seq![HEv::Str(\"null\"@)] }),", ["MODEL"])])
-    u.fn(F, H, "cmp_json", ret="r_", props=P18, key="hashable_value::cmp_json", vpath="cmp_json",
+    u.fn(F, H, "cmp_json", ret="r_", props=P18 + P12, key="hashable_value::cmp_json", vpath="cmp_json",
          rules=[make_r_sub("R-eq", r"serde_json::to_string\(l\)\s*\.unwrap\(\)\s*\.eq\(&serde_json::to_string\(r\)\.unwrap\(\)\)", "vstr_eq(&vjson_str(l), &vjson_str(r))")],
          spec="ensures r_ == (match (*l, *r) { (Some(a), Some(b)) => json_text(*a) == json_text(*b), (None, None) => true, _ => false }),")
     u.fn(F, H, "hash_json", props=P18 + ["MODEL"], key="hashable_value::hash_json", vpath="hash_json",
@@ -314,6 +315,12 @@ fn cmp_vector(l: &Option<Box<PgVector>>, r: &Option<Box<PgVector>>) -> (b: bool)
 fn hash_vector(v: &Option<Box<PgVector>>, state: &mut VHasher) ensures final(state).tr@ == old(state).tr@.push(HEv::Key(hkey(*v))) { unimplemented!() }
 """, "value::vector-helpers(ASSUMED: cmp_vector / hash_vector are an equivalence / a key function of it)", props=P18)
     u.spec(C18_LEMMAS, "value::c18-lemmas", props=P18)
+    # value tuples as keys: ValueTuple's PartialEq, Eq and Hash are all DERIVED (structural over Value's eq / hash, so coherent when Value's are:
+    # trusted derive semantics); a hand-written impl is outside this unit's reach (=> UNDECIDED => the native search decides)
+    vt = rl.find_type(F, src, "enum", "ValueTuple").text
+    if (not re.search(r"#\[derive\([^)]*\bPartialEq\b", vt) or not re.search(r'cfg_attr\(feature = "hashable-value", derive\(Hash, Eq\)\)', vt)
+            or re.search(r"impl\s+(?:PartialEq|Hash|std::hash::Hash)\s+for\s+ValueTuple\b", src)):
+        u.stubbed["ValueTuple: derived PartialEq / Eq / Hash"] = {"reason": "ValueTuple's PartialEq / Hash are not (all) derived any more: a hand-written impl is not under contract", "props": list(P18), "fname": "ValueTuple"}
     u.emit("} // verus!\nfn main() {}\n")
 
 
